@@ -12,13 +12,13 @@ from vf.common import srcgen
 from vf.common.harness import Result
 
 ID = "C13"
-ENTRIES = ["metadata", "pandas-columns", "awkward-columns", "ttree", "parquet", "default", "capture-closure", "capture-global"]
+ENTRIES = ["metadata", "pandas-columns", "awkward-columns", "ttree", "parquet", "default", "capture-closure", "capture-global", "capture-closure-nested", "capture-global-nested"]
 RULE = (
     "Values: text over the full alphabet (quotes, backslashes, newlines, brackets, operators, '#', non-ASCII, non-BMP), "
     "big ints, finite floats incl. -0.0 / subnormals / 1e308, bools, None, bytes, list/tuple/dict nestings (depth<=3), each "
     "sent through every entry point that accepts its shape: MetaData(dict), AsPandasDF/AsAwkwardArray(columns), "
     "AsROOTTTree(filename, treename, columns), AsParquetFiles(filename, columns), a declared default of a typed method "
-    "whose call omits it, a captured closure variable, a captured module global. Oracle: ast.literal_eval of the emitted "
+    "whose call omits it, a captured closure variable, a captured module global (directly in the passed lambda and inside lambdas of nested operators). Oracle: ast.literal_eval of the emitted "
     "literal == value with recursively identical types (floats by repr). Non-trivial = value contains one of ' \" \\ "
     "newline CR # ()[]{} or a non-ASCII character, or is a nested container, or a non-integral float. Distinct by "
     "(entry point, value)."
@@ -150,6 +150,10 @@ def build_closure(ds, v):
     return ds.Select(lambda e: (e.x, v))
 def build_global(ds):
     return ds.Select(lambda e: (e.x, G))
+def build_closure_nested(ds, v):
+    return ds.Select(lambda e: e.jets.Select(lambda j: j.trks.Where(lambda t: (t.x, v))))
+def build_global_nested(ds):
+    return ds.Select(lambda e: e.jets.Select(lambda j: (j.x, G)))
 '''
 
 
@@ -213,10 +217,18 @@ def check(case) -> Result:
                     with srcgen.module(_CAPTURE_SRC) as mod:
                         if entry == "capture-closure":
                             lam = mod.build_closure(DS(), v).query_ast.args[1]
-                        else:
+                            node = lam.body.elts[1]
+                        elif entry == "capture-global":
                             mod.G = v
                             lam = mod.build_global(DS()).query_ast.args[1]
-                    node = lam.body.elts[1]
+                            node = lam.body.elts[1]
+                        elif entry == "capture-closure-nested":  # the capture sits two lambdas below the one passed
+                            lam = mod.build_closure_nested(DS(), v).query_ast.args[1]
+                            node = lam.body.args[0].body.args[0].body.elts[1]
+                        else:
+                            mod.G = v
+                            lam = mod.build_global_nested(DS()).query_ast.args[1]
+                            node = lam.body.args[0].body.elts[1]
             except ValueError as e:
                 if scalar:
                     return r.fail(f"{entry}: transportable scalar {v!r} refused with ValueError: {e}")
